@@ -43,6 +43,7 @@ func (c04) Cases(tier string, seed int64, kf *KnownFindings) []Case {
 	var cs []Case
 	add := func(c Case) { c.Sub = -1; cs = append(cs, c) }
 	add(Case{Kind: "chain", Count: 6})
+	add(Case{Kind: "valuepos", Count: 8})
 	for fi := range fillers {
 		add(Case{Kind: "exh", N: 1, K: fi, A: 0, B: 4})
 		add(Case{Kind: "exh", N: 2, K: fi, A: 0, B: 81})
@@ -318,6 +319,34 @@ func (c04) Run(c Case, env *Env) Result {
 			res.NTCount++
 			res.Max("chain_nodes", int64(n))
 			graphCheck(env, &res, c, j*4+2, nodes[0], []string{"long-chain", fmt.Sprintf("nodes=%d", n)}, n)
+		}
+	case "valuepos":
+		// a list in VALUE position (the top-level value, a map value, an element of another list) that is
+		// referred to from inside itself while it is still being read
+		lo, hi := subRange(c)
+		for j := lo; j < hi; j++ {
+			n := []int{3, 3, 1100, 5}[j%4]
+			nodes := make([]*zoo.GNode, n)
+			for i := range nodes {
+				nodes[i] = &zoo.GNode{Id: int32(i)}
+			}
+			l := append([]*zoo.GNode(nil), nodes...)
+			nodes[1].Kids = l // an element holds the list it is an element of
+			nodes[n-1].Kids = l
+			nodes[0].A = nodes[n-1]
+			var val interface{}
+			feats := []string{"list-in-value-position", fmt.Sprintf("nodes=%d", n)}
+			switch j / 4 {
+			case 0:
+				val = l
+				feats = append(feats, "top-level-list")
+			default:
+				val = &zoo.MpKids{M: map[string][]*zoo.GNode{"a": l}, N: int32(j)}
+				feats = append(feats, "list-as-map-value")
+			}
+			env.J(c.Idx, j)
+			res.NTCount++
+			graphCheck(env, &res, c, j*4+2, val, feats, n)
 		}
 	case "lit":
 		if f, ok := literals[c.S]; ok {
